@@ -382,7 +382,7 @@ def views_stream(ctx, cirq, n, shard=0):
             extra = None
             if mode == 'none':
                 h = _try(lambda: mk().histogram(key=k))
-                R['hist'].append((lit, kid[k], 'BaseNone', h))
+                R['hist'].append((lit, kid[k], 'BaseNone', h, None))
                 exp = None if (sm is None or k not in sm) else collections.Counter(spec_int([1 if d else 0 for d in row]) for row in sm[k])
                 binary = sp is None or sp['binary']
             elif mode in ('int', 'list', 'badlist'):
@@ -396,7 +396,7 @@ def views_stream(ctx, cirq, n, shard=0):
                     bl = sp['bases'] + [2]
                     fb, fbl = list(bl), f'(BaseList {coq.zlist(bl)})'
                 h = _try(lambda: mk().histogram(key=k, fold_base=fb))
-                R['hist'].append((lit, kid[k], fbl, h))
+                R['hist'].append((lit, kid[k], fbl, h, (recs[k], bl)))
                 exp = None if (sm is None or mode == 'badlist') else collections.Counter(spec_int(row, bl) for row in sm[k])
                 binary, extra = True, fb
             else:
@@ -523,7 +523,7 @@ def views_stream(ctx, cirq, n, shard=0):
         f'({l}, {O(d, d_lit)})' for l, d in R['df']) + '].\n'
     text += 'Eval vm_compute in failing (fun c => opt_eqb df_eqb (dataframe (fst c)) (snd c)) c_df.\n'
     text += 'Definition c_hist : list (result * Z * fold_base * option (list (Z * nat))) := [\n' + ';\n'.join(
-        f'({l}, {k}, {fb}, {O(h, lambda c: counter_lit(c, coq.zlit))})' for l, k, fb, h in R['hist']) + '].\n'
+        f'({l}, {k}, {fb}, {O(h, lambda c: counter_lit(c, coq.zlit))})' for l, k, fb, h, _ in R['hist']) + '].\n'
     text += 'Eval vm_compute in failing (fun c => match c with (r, k, fb, h) => opt_eqb zc_eqb (histogram r k fb) h end) c_hist.\n'
     text += 'Definition c_histf : list (result * Z * nat * option (list (list Z * nat))) := [\n' + ';\n'.join(
         f'({l}, {k}, {f}%nat, {O(h, lambda c: counter_lit(c, tl))})' for l, k, f, h in R['histf']) + '].\n'
@@ -546,7 +546,12 @@ def views_stream(ctx, cirq, n, shard=0):
     assert len(vals) == len(names), vals
     for name, val in zip(names, vals):
         for idx in coq.parse_nat_list(val):
-            ctx.mark_broken(f'correspondence:views:{name}', f'model and implementation differ on {str(R[name][idx])[:1500]}')
+            label = f'correspondence:views:{name}'
+            if name == 'hist' and R[name][idx][4] is not None:
+                arr, bl = R[name][idx][4]
+                if any(_impl_digits_to_int(cirq, arr[r_, 0], bl) != _impl_digits_to_int(cirq, [int(x) for x in arr[r_, 0]], bl) for r_ in range(arr.shape[0])):
+                    label += '[explained by known finding digits:digits_to_int:numpy-digits]'
+            ctx.mark_broken(label, f'model and implementation differ on {str(R[name][idx][:4])[:1500]}')
 
 
 # ------------------------------------------------------------------ sampler defaults
